@@ -266,3 +266,85 @@ def _lname(p, live):
     if (live + ".conflict-") in p:
         return "conflict"
     return os.path.basename(p)
+
+
+def required_order(what, trace):
+    """the order the obligations demand of the real system calls; returns a description of the first breach or None"""
+    ops = [(k, t) for k, t, rc in trace]
+
+    def idx(pred, start=0):
+        for i in range(start, len(ops)):
+            if pred(ops[i]):
+                return i
+        return -1
+    if what == "handle_put":
+        ren = idx(lambda o: o[0] == "rename" and o[1][0] == "staging")
+        if ren < 0:
+            return None                       # nothing published in this scenario
+        cr = idx(lambda o: o == ("create", "staging"))
+        sy = idx(lambda o: o == ("sync", "staging"))
+        lk = idx(lambda o: o == ("lock", "lockfile"))
+        ul = idx(lambda o: o == ("unlock", "lockfile"), lk + 1 if lk >= 0 else 0)
+        rd = idx(lambda o: o == ("open", "live"), lk + 1 if lk >= 0 else 0)
+        if any(o == ("create", "live") for o in ops[cr if cr >= 0 else 0:]) or any(o == ("write", "live") for o in ops[cr if cr >= 0 else 0:]):
+            return "the live path is opened for writing directly"
+        if cr < 0 or not (cr < ren):
+            return "no staging file is created before the rename"
+        if sy < 0 or not (sy < ren):
+            return "the staging file is not synced before it is renamed into place"
+        if lk < 0 or not (lk < ren) or (ul >= 0 and ul < ren):
+            return "the rename is not inside the exclusive-lock section"
+        if ops[ren][1][1] == "live" and (rd < 0 or not (lk < rd < ren)):
+            # the current hash may legitimately be absent (file does not exist: the open fails but is still attempted)
+            return "the current content is not read between taking the lock and the rename"
+        if ul < 0:
+            return "the lock is never released"
+        return None
+    if what == "handle_delete":
+        rm = idx(lambda o: o == ("remove", "live"))
+        if rm < 0:
+            return None
+        lk = idx(lambda o: o == ("lock", "lockfile"))
+        ul = idx(lambda o: o == ("unlock", "lockfile"), lk + 1 if lk >= 0 else 0)
+        rd = idx(lambda o: o == ("open", "live"), lk + 1 if lk >= 0 else 0)
+        if lk < 0 or not (lk < rm) or (ul >= 0 and ul < rm):
+            return "the removal is not inside the exclusive-lock section"
+        if rd < 0 or not (lk < rd < rm):
+            return "the current content is not read between taking the lock and the removal"
+        return None
+    return None
+
+
+def order_check(R, oid, key, what):
+    tree = {"a.txt": hx(b"hi")}
+    if what == "handle_put":
+        cases = [{"fn": "hub_step", "tree": tree, "op": "put", "path": "a.txt", "expected": "CURRENT", "content": hx(b"abc")},
+                 {"fn": "hub_step", "tree": tree, "op": "put", "path": "a.txt", "expected": "STALE", "content": hx(b"abc")},
+                 {"fn": "hub_step", "tree": tree, "op": "put", "path": "n/new.txt", "expected": None, "content": hx(b"abc"), "chunk": 1}]
+    elif what == "handle_delete":
+        cases = [{"fn": "hub_step", "tree": tree, "op": "delete", "path": "a.txt", "expected": "CURRENT"}]
+    else:
+        return {"confirmed": False, "detail": "no order requirement for %s" % what}
+    for prof in ("dev", "release"):
+        for c in cases:
+            ev, res = strace_case(c, prof)
+            # the handler's part of the trace: after the set-up wrote the tree (last write to the sentinel/live during set-up
+            # precedes the first access to the staging or lock file)
+            tr = logical_trace(ev, c["path"])
+            start = 0
+            for i, (k, t, rc) in enumerate(tr):
+                if (k, t) in (("create", "staging"), ("create", "lockfile")):
+                    start = i
+                    break
+            # include the hash read that may precede the lock in a broken ordering: back up over 'open live' events
+            while start > 0 and tr[start - 1][:2] == ("open", "live"):
+                start -= 1
+            breach = required_order(what, tr[start:])
+            if breach:
+                c = dict(c)
+                c["observed"] = {prof: {"syscalls": [[k, t, rc] for k, t, rc in tr[start:start + 40]], "result": res}}
+                c["deviation"] = breach
+                c["strace"] = True
+                return {"confirmed": True, "replay_path": R.save_replay(oid, c), "key": key,
+                        "detail": "real system-call order of %s %r (%s): %s" % (c["op"], c["path"], prof, breach)}
+    return {"confirmed": False, "detail": "the real system-call order (strace) of commit / conflict / delete is the required one"}
